@@ -23,7 +23,7 @@ RULE = ("cases = (a) a 6-statement script (table with inline and table-level ref
         "(exhaustive); (c) every grammar keyword x 3 spellings as undelimited table, schema, constraint, index, sequence, type, "
         "referenced-table and ALTER-target name (exhaustive; the words that fail on the pinned tree are listed known findings). "
         "Non-trivial = at least one identifier is delimited, mixed-case or keyword-shaped; distinct = distinct (DDL, setting)."
-        " Added after seeded defects: keyword-shaped column names re-used in 10 key/reference/index/ALTER list positions, names that merely start with a keyword (every keyword x 4 suffixes x 7 positions), names with # $ @, ARRAY-prefixed names (exact-spelling known findings), normalize_names handed over through parse_from_file, a column renamed by ALTER (old and new name as roles).")
+        " Added after seeded defects: keyword-shaped column names re-used in 10 key/reference/index/ALTER list positions, names that merely start with a keyword (every keyword x 4 suffixes x 7 positions), names with # $ @, ARRAY-prefixed names (exact-spelling known findings), normalize_names handed over through parse_from_file, a column renamed by ALTER (old and new name as roles), a project-qualified three-part table name and reference (roles P, T3), 30% of the scripts in the compact layout (nothing after commas).")
 ASSUMPTIONS = ["each identifier is unique within its script (so an identifier-aware textual strip is unambiguous)",
                "an identifier keeps the same spelling everywhere it is used in one script"]
 MIN_EVENTS = {"statements": 100, "run_return": 100}
@@ -90,7 +90,7 @@ def make_ident(rng, base, classes=None):
     raise ValueError(cls)
 
 
-ROLES = ["S", "T", "A", "B", "C", "CN", "UQ", "CK", "IX", "FK", "RT", "RC", "RS", "SQ", "TY", "DM", "D", "IK", "E", "F"]
+ROLES = ["S", "T", "A", "B", "C", "CN", "UQ", "CK", "IX", "FK", "RT", "RC", "RS", "SQ", "TY", "DM", "D", "IK", "E", "F", "P", "T3"]
 
 
 def gen_script(rng, classes=None):
@@ -115,8 +115,14 @@ def gen_script(rng, classes=None):
         "CREATE SEQUENCE {S}.{SQ} START WITH 5;\n"
         "CREATE TYPE {S}.{TY} AS ENUM ('a', 'b');\n"
         "CREATE DOMAIN {S}.{DM} AS varchar(10);\n"
+        "CREATE TABLE {P}.{S}.{T3} ({A} int REFERENCES {P}.{RS}.{RT} ({RC}), {B} int);\n"
     ).format(**g)
-    return {"gen": "positions", "ddl": ddl, "ids": {k: list(v) for k, v in ids.items()}}
+    layout = "spaced"
+    if rng.random() < 0.3:
+        # the compact layout: nothing after a comma, nothing inside the parentheses of the column list
+        ddl = ddl.replace(",\n  ", ",").replace("(\n  ", "(").replace("\n);", ");").replace(", ", ",")
+        layout = "compact"
+    return {"gen": "positions", "ddl": ddl, "layout": layout, "ids": {k: list(v) for k, v in ids.items()}}
 
 
 def expected_positions(g):
@@ -144,6 +150,10 @@ def expected_positions(g):
         (("1", "schema"), g["S"]), (("1", "sequence_name"), g["SQ"]),
         (("2", "schema"), g["S"]), (("2", "type_name"), g["TY"]),
         (("3", "schema"), g["S"]), (("3", "domain_name"), g["DM"]),
+        # a project-qualified (three-part) table name and reference
+        (("4", "schema"), g["S"]), (("4", "table_name"), g["T3"]), (("4", "table_properties", "project"), g["P"]), (("4", "columns", "*name"), [g["A"], g["B"]]),
+        (("4", "columns", 0, "references", "project"), g["P"]), (("4", "columns", 0, "references", "schema"), g["RS"]),
+        (("4", "columns", 0, "references", "table"), g["RT"]), (("4", "columns", 0, "references", "column"), g["RC"]),
     ]
 
 
@@ -188,8 +198,8 @@ def check_positions(ctx, case):
             return
         ents = entities(r[1])
         results[nn] = ents
-        if len(ents) != 4:
-            ctx.violation("entity_count", dict(case, normalize_names=nn), {"observed": len(ents), "expected": 4, "kinds": [sorted(e)[:3] for e in ents]})
+        if len(ents) != 5:
+            ctx.violation("entity_count", dict(case, normalize_names=nn), {"observed": len(ents), "expected": 5, "kinds": [sorted(e)[:3] for e in ents]})
             return
         g = {k: (v[1] if nn else v[0]) for k, v in ids.items()}
         for path, exp in expected_positions(g):
